@@ -16,10 +16,12 @@ import (
 	"io"
 	"math/rand"
 	"net/http"
+	"net/http/httptrace"
 	"net/url"
 	"strings"
 	"testing"
 
+	"github.com/imroc/req/v3/internal/common"
 	reqhttp2 "github.com/imroc/req/v3/http2"
 	"github.com/imroc/req/v3/internal/transport"
 	"github.com/imroc/req/v3/internal/verifh"
@@ -196,7 +198,7 @@ func c16PickPrio(r *rand.Rand) reqhttp2.PriorityParam {
 // peer (frame size limit = the advertised one, CONTINUATION discipline, HPACK decoding).
 func TestVerif_C16_h2frames(t *testing.T) {
 	s := verifh.New(t, "C16", "h2frames",
-		"(raw) header blocks of random bytes handed to the real ClientConn.writeHeaders: lengths k x MAX_FRAME_SIZE + d for k = 0..4, d in {-6..+6} (and the same shifted by the 5 priority octets), a fifth anywhere in 0..4 frames; peer SETTINGS_MAX_FRAME_SIZE in {16384, 16385, 16389, 20000, 32768, 65535, 65536, 131072} and, in a third of the cases, small sizes {6..4096} that put many boundaries into small blocks; HEADERS priority none / Chrome's / random; END_STREAM on/off; (req) whole requests through clientStream.encodeAndWriteHeaders: the field cases of the h2fields lane plus an incompressible X-Fill-Block value sized so that the HPACK block lands on / next to such a boundary, frames read back by the reference framer, the reassembled block decoded by the reference HPACK decoder: the decoded field list in arrival order is compared with the c16fields model, the frame layout with the c16hframes model; oracle: fragments reassemble to the block, END_HEADERS on the last frame only, every payload within the peer's limit, first frame HEADERS with the flags and priority asked for, rest CONTINUATION; non-trivial = at least one frame written")
+		"(raw) header blocks of random bytes handed to the real ClientConn.writeHeaders: lengths k x MAX_FRAME_SIZE + d for k = 0..4, d in {-6..+6} (and the same shifted by the 5 priority octets), a fifth anywhere in 0..4 frames; peer SETTINGS_MAX_FRAME_SIZE in {16384, 16385, 16389, 20000, 32768, 65535, 65536, 131072} and, in a third of the cases, small sizes {6..4096} that put many boundaries into small blocks; HEADERS priority none / Chrome's / random; END_STREAM on/off; (req) whole requests through clientStream.encodeAndWriteHeaders: the field cases of the h2fields lane plus an incompressible X-Fill-Block value sized so that the HPACK block lands on / next to such a boundary, frames read back by the reference framer, the reassembled block decoded by the reference HPACK decoder: the decoded field list in arrival order is compared with the c16fields model, the frame layout with the c16hframes model; (seq, round 7) connection SEQUENCES of 2..10 requests through encodeAndWriteHeaders on ONE ClientConn (one HPACK encoder / Framer; field cases of h2fields, two thirds derived from the previous request) with the peer keeping ONE reference HPACK decoder per connection, half of the requests GIVEN UP via their context / cs.abort / cs.reqCancel before the call or from inside the k-th WroteHeaderField trace hook (k = 1..13, beyond the last field = never), i.e. while the block goes through the stateful encoder: every block that reaches the wire is decoded by the decoder of its connection and compared with the c16fields model (a request given up must not disturb the header sets of the requests that follow it on the connection), a failed call writes no frame; oracle: fragments reassemble to the block, END_HEADERS on the last frame only, every payload within the peer's limit, first frame HEADERS with the flags and priority asked for, rest CONTINUATION; non-trivial = at least one frame written")
 	r := s.Rand()
 	need := map[string]int{}
 	count := func(b string) { s.Count(b); need[b]++ }
@@ -360,7 +362,182 @@ func TestVerif_C16_h2frames(t *testing.T) {
 		count("req:fields")
 		s.Case(verifh.C01FieldLine("h2", tc), got, good, class, true, h2)
 	}
-	for _, b := range []string{"raw:exact-multiple", "raw:multiple-1", "raw:multiple+1", "raw:exact-multiple-minus-prio", "raw:several-frames", "raw:one-frame", "raw:small-frame-size", "raw:empty",
+	// ---- round 7: connection SEQUENCES through encodeAndWriteHeaders with requests GIVEN UP at every
+	// point of the header write. One ClientConn (one HPACK encoder, one Framer) and one peer (reference
+	// framer + ONE reference HPACK decoder for the life of the connection) serve 2..10 requests; each
+	// request is given up with probability 1/2 — through its context, cs.abort or cs.reqCancel —
+	// before the call or from inside the k-th WroteHeaderField trace hook (k = 1 .. beyond the last
+	// field), i.e. while the header block is going through the connection's stateful encoder.
+	// Whatever the client decides to do with such a request, the peer must stay able to decode every
+	// later request of the connection: each delivered block is decoded by the connection's decoder
+	// and compared with the c16fields model.
+	nseq := verifh.N(700, 6000)
+	var sfc *c16FrameConn
+	var sdec *hpack.Decoder
+	var sprev *verifh.C01FieldCase
+	sleft, spos, sgiven := 0, 0, 0
+	var ssid uint32
+	for i := 0; i < nseq; i++ {
+		if sleft == 0 {
+			sfc = c16NewFrameConn(verifh.Pick(r, []int{16384, 16384, 255, 1000}), c16PickPrio(r))
+			sdec = hpack.NewDecoder(4096, nil)
+			sprev, sleft, spos, sgiven, ssid = nil, 2+r.Intn(9), 0, 0, 1
+		}
+		sleft--
+		spos++
+		var tc *verifh.C01FieldCase
+		if sprev != nil && r.Intn(3) != 0 {
+			tc = verifh.C01MutateFieldCase(r, sprev)
+		} else {
+			tc = verifh.C01GenFieldCase(r, verifh.Pick(r, []string{"plain", "order"}))
+		}
+		tc.Limit = 0
+		sprev = tc
+		u, e := url.Parse(tc.RawURL)
+		if e != nil {
+			continue
+		}
+		mf := int(sfc.cc.maxFrameSize)
+		// the give-up plan
+		via, at := "", -1
+		if r.Intn(2) == 0 {
+			via = verifh.Pick(r, []string{"ctx", "abort", "reqCancel"})
+			at = r.Intn(14)
+			if r.Intn(4) == 0 {
+				at = 0 // before the call
+			}
+		}
+		ctx, cancel := context.WithCancel(context.Background())
+		abort := make(chan struct{})
+		reqCancel := make(chan struct{})
+		cs := &clientStream{cc: sfc.cc, abort: abort, reqCancel: reqCancel, ID: ssid, requestedGzip: tc.Gzip}
+		fired := false
+		giveUp := func() {
+			if fired {
+				return
+			}
+			fired = true
+			switch via {
+			case "ctx":
+				cancel()
+			case "abort":
+				cs.abortErr = errClientConnUnusable
+				close(abort)
+			case "reqCancel":
+				close(reqCancel)
+			}
+		}
+		hooks := 0
+		tctx := httptrace.WithClientTrace(ctx, &httptrace.ClientTrace{WroteHeaderField: func(string, []string) {
+			hooks++
+			if via != "" && hooks == at {
+				giveUp()
+			}
+		}})
+		cs.ctx = tctx
+		req := (&http.Request{Method: tc.Method, URL: u, Host: tc.Host, Header: tc.Header.Clone(), Proto: "HTTP/1.1", ProtoMajor: 1, ProtoMinor: 1, ContentLength: tc.CL}).WithContext(tctx)
+		if tc.HasBody {
+			if tc.NoBody {
+				req.Body = http.NoBody
+			} else {
+				req.Body = io.NopCloser(strings.NewReader("x"))
+			}
+		}
+		if via != "" && at == 0 {
+			giveUp()
+		}
+		sfc.wire.Reset()
+		var err error
+		p, crashed := verifh.Safely(func() { err = cs.encodeAndWriteHeaders(req, nil) })
+		cancel()
+		human := fmt.Sprintf("request %d of its connection (%d given up before it), stream %d, peer MAX_FRAME_SIZE %d, given up via %q at header field %d (fired=%v, %d fields traced): %q %q host=%q hdr=%.600q cl=%d body=%v/%v gzip=%v", spos, sgiven, ssid, mf, via, at, fired, hooks, tc.Method, tc.RawURL, tc.Host, fmt.Sprint(tc.Header), tc.CL, tc.HasBody, tc.NoBody, tc.Gzip)
+		if crashed {
+			s.Crash(human, human, p, "")
+			sleft = 0
+			continue
+		}
+		effHost := tc.Host
+		if effHost == "" {
+			effHost = u.Host
+		}
+		wire := append([]byte(nil), sfc.wire.Bytes()...)
+		if err != nil || !verifh.C01IsASCII(effHost) {
+			if err != nil && len(wire) != 0 {
+				s.Observe(human, false, "", false, human, "a request that failed in encodeAndWriteHeaders wrote frames")
+				sleft = 0
+			}
+			if fired && (err == context.Canceled || err == errClientConnUnusable || err == common.ErrRequestCanceled) {
+				// given up and nothing sent: the requests that follow tell whether the connection is intact
+				count("seq:given-up-nothing-sent")
+				sgiven++
+				continue
+			}
+			if err == nil {
+				// outside the model (non-ASCII host): the block is on the wire; keep the peer's decoder in step
+				frames, bad := c16ReadFrames(wire, mf)
+				_, block := c16ShowFrames(frames, bad)
+				if _, derr := sdec.DecodeFull(block); derr != nil || bad != "" {
+					sleft = 0
+				}
+				ssid += 2
+				continue
+			}
+			ans := "err:outside"
+			if verifh.C01IsASCII(effHost) {
+				ans = c16H2ErrKind(err)
+			}
+			count("seq:" + ans)
+			s.Case(verifh.C01FieldLine("h2", tc), ans, true, "", false, human)
+			continue
+		}
+		// written: the peer reads the frames and decodes the block with the CONNECTION's decoder
+		frames, bad := c16ReadFrames(wire, mf)
+		_, block := c16ShowFrames(frames, bad)
+		wantES := actualContentLength(req) == 0
+		if ok, why := c16FrameOracle(frames, bad, block, mf, ssid, wantES, sfc.prio); !ok {
+			s.Observe(human, false, "", false, human, why)
+		}
+		ssid += 2
+		var fields [][2]string
+		got := "peer-never-got-the-header-block"
+		if bad == "" && len(frames) > 0 && frames[len(frames)-1].endHeaders {
+			hfs, derr := sdec.DecodeFull(block)
+			if derr != nil {
+				got = "the peer's HPACK decoder rejects the block (COMPRESSION_ERROR): " + derr.Error()
+			} else {
+				fields = [][2]string{}
+				for _, hf := range hfs {
+					fields = append(fields, [2]string{hf.Name, hf.Value})
+				}
+				got = verifh.C01ShowFields(fields, tc.Header[verifh.C01HeaderOrderKey])
+			}
+		}
+		good, fwhy := false, "the peer never obtained the header set of the request: "+got
+		if fields != nil {
+			good, fwhy = verifh.C01FieldOracle("h2", tc, fields)
+		}
+		class := ""
+		if verifh.C01PseudoOrderOtherCase(tc.Header[verifh.C01PseudoHeaderOrderKey]) {
+			class = "pseudo-order-case"
+		}
+		if !good {
+			human += " ORACLE: " + fwhy
+		}
+		count("seq:fields")
+		if sgiven > 0 {
+			count("seq:delivered-after-a-given-up-request")
+		}
+		if fired && at > 0 {
+			count("seq:given-up-while-encoding")
+			sgiven++
+		}
+		if fields == nil {
+			sleft = 0 // the compression context of this connection is gone
+		}
+		s.Case(verifh.C01FieldLine("h2", tc), got, good, class, true, human)
+	}
+	for _, b := range []string{"seq:fields", "seq:given-up-while-encoding", "seq:given-up-nothing-sent", "seq:delivered-after-a-given-up-request",
+		"raw:exact-multiple", "raw:multiple-1", "raw:multiple+1", "raw:exact-multiple-minus-prio", "raw:several-frames", "raw:one-frame", "raw:small-frame-size", "raw:empty",
 		"req:exact-multiple", "req:multiple-1", "req:multiple+1", "req:exact-multiple-minus-prio", "req:several-frames", "req:fields", "req:err:header"} {
 		if need[b] == 0 {
 			t.Errorf("lane did not reach bucket %q", b)
